@@ -493,3 +493,92 @@ def _list(eng, args, kwargs):
 
 
 models.EXTRA_MODELS[list] = _list
+
+
+# ---------------------------------------------------------------------------------------------------------------
+# proof steps in a reduced context
+def _has_nested_array(t, cache={}):
+    """does the formula mention a term whose sort is an array of arrays (contents of lists of lists)?"""
+    key = t.get_id()
+    if key in cache:
+        return cache[key]
+    todo, seen, hit = [t], set(), False
+    while todo and not hit:
+        a = todo.pop()
+        if a.get_id() in seen:
+            continue
+        seen.add(a.get_id())
+        if z3.is_quantifier(a):
+            todo.append(a.body())
+            continue
+        so = a.sort()
+        if so.kind() == z3.Z3_ARRAY_SORT and so.range().kind() == z3.Z3_ARRAY_SORT:
+            hit = True
+        elif z3.is_app(a):
+            todo.extend(a.children())
+    cache[key] = hit
+    return hit
+
+
+def prove_without_list_contents(eng, label, goal, kind="annotation", note=""):
+    """Like eng.prove, but the obligation's hypotheses are the SUBSET of the path condition that does not speak about the contents of
+    lists of lists (nested arrays).  Sound: fewer hypotheses prove a stronger statement.  For steps that are pure arithmetic /
+    uninterpreted-function reasoning the array theory only costs time."""
+    from .engine import Oblig
+
+    hyps = [h for h in eng.pc if not _has_nested_array(h)]
+    note = (note + " " if note else "") + "[reduced context]" + (f" [variant {eng.variant}]" if getattr(eng, "variant", "") else "")
+    eng.obligs.append(Oblig(f"{eng.prop}/{label}", hyps, goal, kind, note))
+    eng.pc.append(goal)
+
+
+def _symbols(t, cache={}):
+    """names of the uninterpreted function symbols and constants of a formula"""
+    key = t.get_id()
+    if key in cache:
+        return cache[key]
+    out, todo, seen = set(), [t], set()
+    while todo:
+        a = todo.pop()
+        if a.get_id() in seen:
+            continue
+        seen.add(a.get_id())
+        if z3.is_quantifier(a):
+            todo.append(a.body())
+            for k in range(a.num_patterns()):
+                todo.extend(a.pattern(k).children())
+        elif z3.is_app(a):
+            if a.decl().kind() == z3.Z3_OP_UNINTERPRETED:
+                out.add(a.decl().name())
+            todo.extend(a.children())
+    cache[key] = out
+    return out
+
+
+def _is_quantified(t):
+    todo, seen = [t], set()
+    while todo:
+        a = todo.pop()
+        if a.get_id() in seen:
+            continue
+        seen.add(a.get_id())
+        if z3.is_quantifier(a):
+            return True
+        if z3.is_app(a):
+            todo.extend(a.children())
+    return False
+
+
+def prove_in_vocabulary(eng, label, goal, vocabulary, kind="annotation", note=""):
+    """Like eng.prove, but the hypotheses are a SUBSET of the path condition: every quantifier-free fact, and the quantified facts
+    that speak only about the given vocabulary (z3 function declarations / constants, or names).  Sound (fewer hypotheses prove a
+    stronger statement); it keeps a proof step independent of unrelated facts, so that the solver's work is small and repeatable."""
+    from .engine import Oblig
+
+    names = set()
+    for s in vocabulary:
+        names.add(s if isinstance(s, str) else (s.name() if isinstance(s, z3.FuncDeclRef) else s.decl().name()))
+    hyps = [h for h in eng.pc if not _is_quantified(h) or _symbols(h) <= names]
+    note = (note + " " if note else "") + "[context restricted to: " + ", ".join(sorted(names)) + "]" + (f" [variant {eng.variant}]" if getattr(eng, "variant", "") else "")
+    eng.obligs.append(Oblig(f"{eng.prop}/{label}", hyps, goal, kind, note))
+    eng.pc.append(goal)
